@@ -27,7 +27,11 @@
      elig          peers eligible for a fresh fanout: meshsub protocol, in tp, not direct, score >= publish threshold
      ok            peers whose score is >= the publish threshold
      atThr         peers whose score is exactly the publish threshold (coverage only)
-     unwanted      peers that announced IDONTWANT for m
+     unwanted      peers that announced IDONTWANT for m (within TTL and per-heartbeat budget): must NOT get a copy
+                   through the mesh / fanout rule
+     unwantedLo    peers that are merely not OWED a copy for IDONTWANT reasons (the trace specification adds
+                   what the node's own bookkeeping says, so that an obligation is never demanded on the
+                   strength of the monitor alone; {} in the model)
      queue         peers with an outbound queue ("provided an outbound stream exists")
      rsSize        RandomSub network size estimate
 
@@ -79,7 +83,7 @@ C06_Flood_F(v, Rlo) ==
 
 C06_Mesh_F(v, Rlo, Rhi) ==
     IF ~(Gs(v) /\ v.joined /\ ~FloodMode(v)) THEN {}
-    ELSE LET missed == Missed(v, v.mesh \ (Excl(v) \cup v.unwanted), Rlo)
+    ELSE LET missed == Missed(v, v.mesh \ (Excl(v) \cup v.unwanted \cup v.unwantedLo), Rlo)
              extra  == Unexplained(v, Rhi) \ (v.mesh \ v.unwanted)
          IN Tag(missed # {} /\ v.tpKnown, "mesh-missed")
             \cup Tag(missed # {} /\ ~v.tpKnown, "mesh-missed-no-topic-entry")
@@ -93,7 +97,7 @@ C06_Fanout_F(v, Rlo, Rhi) ==
     IF ~(Gs(v) /\ ~v.joined /\ ~FloodMode(v)) THEN {}
     ELSE LET fresh  == v.fanout = {}
              F      == IF fresh THEN v.fanoutPost ELSE v.fanout
-             missed == Missed(v, (F \cap v.tp) \ (Excl(v) \cup v.unwanted), Rlo)
+             missed == Missed(v, (F \cap v.tp) \ (Excl(v) \cup v.unwanted \cup v.unwantedLo), Rlo)
              extra  == Unexplained(v, Rhi) \ (F \ v.unwanted)
          IN Tag(fresh /\ v.tpKnown /\ ~(F \subseteq v.elig), "fanout-ineligible")
             \cup Tag(fresh /\ v.tpKnown /\ Cardinality(F) # Min2(v.D, Cardinality(v.elig)), "fanout-size")
